@@ -154,6 +154,10 @@ fn apply<T: Elem, C: ArrayLength + PartialEq>(p: &mut Pair<T, C>, o: &Value) -> 
             *m!() = DenseMatrix::from_rows(rows);
             json!(m!().rows())
         }
+        "from_rows_other" => {
+            // the rows come from the other matrix's own iterator (an ExactSizeIterator of rows)
+            if tgt == "a" { p.a = DenseMatrix::from_rows(p.b.iter()); json!(p.a.rows()) } else { p.b = DenseMatrix::from_rows(p.a.iter()); json!(p.b.rows()) }
+        }
         "clone_to_other" => {
             if tgt == "a" {
                 p.b = p.a.clone();
@@ -268,7 +272,7 @@ fn random_op<C: ArrayLength + PartialEq>(rng: &mut impl Rng, na: usize, nb: usiz
                 let rows: Vec<Vec<i64>> = (0..r).map(|_| (0..c).map(|_| rng.gen_range(0..kmod)).collect()).collect();
                 json!({"op":"from_rows","tgt":tgt,"rows":rows})
             }
-            11 => json!({"op":"clone_to_other","tgt":tgt}),
+            11 => if rng.gen_bool(0.3) { json!({"op":"from_rows_other","tgt":tgt}) } else { json!({"op":"clone_to_other","tgt":tgt}) },
             12 => json!({"op":"iter_mut_bump","tgt":tgt,"k":kmod}),
             13 => json!({"op":"iter","tgt":tgt}),
             14 => json!({"op":"iter_rev","tgt":tgt}),
